@@ -16,7 +16,7 @@ RULES = {
     'R5': 'circular mmap: 2*bytes reserved, the same fd mapped MAP_FIXED|MAP_SHARED at addr and addr+bytes, offset 0; word_size = real_size/4 for the same real_size; close unmaps (word_size*4)<<1',
     'R6': 'qb_rb_space_free/used: one word is kept unused (the -1), equal indices mean empty, result scaled by the word size',
 }
-FLOORS = {'R1': 5, 'R2': 8, 'R3': 5, 'R4': 5, 'R5': 9, 'R6': 5}
+FLOORS = {'R1': 5, 'R2': 9, 'R3': 5, 'R4': 5, 'R5': 9, 'R6': 5}
 
 
 def run(ctx):
@@ -133,6 +133,19 @@ def r2(ctx):
     lens = [ev for ev in st.events() if ev.kind in ('DECL', 'STORE') and is_shared_data_idx(ev.d.get('init') or ev.rhs or {})]
     ok0 = bool(lens) and all(estr(unwrap(ev.d.get('init') or ev.rhs)['i']) == pv for ev in lens)
     ctx.check('R2', 'length-at-offset-0', ok0, st, 'length word is shared_data[p]', 'chunk_step reads the length from another word')
+    # the stepped index is a valid index again: 0 <= result <= word_size - 1 on every path (bounds analysis; the dump writer stores
+    # the raw index and the dump reader refuses index >= word_size, and peek/read/reclaim index the marker with it)
+    from engine.bounds import Analysis, Lin
+    ws = [estr(n) for ev in st.events('LOAD') for n in [unwrap(ev.e)] if last_field(n) == ('qb_ringbuffer_shared_s', 'word_size')]
+    if not ws:
+        raise AnalysisBroken('qb_rb_chunk_step: word_size is not read')
+    W = Lin.term(ws[0])
+    an = Analysis(prog, st, {}, init=[Lin(1) - W]).run()
+    if not an.returns:
+        raise AnalysisBroken('qb_rb_chunk_step: no return')
+    ok = all(v is not None and s2.entails_le(v, W - 1) and s2.entails_le(0, v) for (_e, s2, v) in an.returns)
+    ctx.check('R2', 'step-result-below-word_size', ok, an.returns[0][0], 'chunk_step returns an index in [0, word_size - 1]',
+              'chunk_step can return word_size itself (or more): the index is stored into read_pt/write_pt, dumped as is and refused by the dump reader; the marker access relies on the double mapping')
     return H
 
 
